@@ -406,3 +406,65 @@ func TestDocOrderDescAndNullColumns(t *testing.T) {
 	}
 	expectOK(t, d, q, q.String(), []string{"time", "x"}, []wantSeries{{nil, [][]any{{int64(30), 3.0}}}})
 }
+
+// Several functions in one SELECT clause (documentation: "Specify multiple functions in the
+// SELECT clause"; selectors: "a selector with another function returns epoch 0 or the lower
+// bound of the time range / the start of the GROUP BY time interval").
+func TestDocSeveralCalls(t *testing.T) {
+	q := &Query{Measurement: "h2o_feet", Proj: []Proj{{Kind: ProjCall, Func: "max", Name: "water_level"}, {Kind: ProjCall, Func: "min", Name: "water_level"}}}
+	expectOK(t, noaa(), q, `SELECT max("water_level"), min("water_level") FROM "h2o_feet"`, []string{"time", "max", "min"},
+		[]wantSeries{{nil, [][]any{{int64(0), 8.12, 1.991}}}})
+	expectReject(t, noaa(), q, []string{"time", "max", "min"}, []wantSeries{{nil, [][]any{{"2015-08-18T00:00:00Z", 8.12, 1.991}}}}, "time of a selected point")
+	// the same function twice needs aliases
+	q = &Query{Measurement: "h2o_feet", Proj: []Proj{{Kind: ProjCall, Func: "first", Name: "water_level"}, {Kind: ProjCall, Func: "first", Name: "level description"}}, GroupBy: []string{"location"}}
+	if _, err := Eval(noaa(), q); err == nil {
+		t.Fatal("duplicate column accepted")
+	}
+	q.Proj[0].Alias, q.Proj[1].Alias = "w", "d"
+	expectOK(t, noaa(), q, `SELECT first("water_level") AS "w", first("level description") AS "d" FROM "h2o_feet" GROUP BY "location"`, []string{"time", "w", "d"},
+		[]wantSeries{{cc, [][]any{{int64(0), 8.12, "between 6 and 9 feet"}}}, {sm, [][]any{{int64(0), 2.064, "below 3 feet"}}}})
+
+	// fields with different coverage: a in buckets 0 and 3, b in all four; x only in series h=2
+	d := &Data{}
+	add := func(h string, sec int64, f string, v Value) {
+		d.Points = append(d.Points, Point{Tags: map[string]string{"h": h}, T: sec * 1e9, Fields: map[string]Value{f: v}})
+	}
+	add("1", 5, "b", fv(10))
+	add("1", 6, "a", fv(1))
+	add("1", 15, "b", fv(20))
+	add("1", 25, "b", fv(30))
+	add("1", 35, "a", fv(7))
+	add("1", 36, "b", fv(40))
+	add("2", 15, "x", iv(3))
+	tb := []TimeBound{{Op: GTE, T: 0, Style: 1}, {Op: LT, T: 40e9, Style: 2}}
+	q = &Query{Measurement: "m", Proj: []Proj{{Kind: ProjCall, Func: "min", Name: "a"}, {Kind: ProjCall, Func: "max", Name: "b"}, {Kind: ProjCall, Func: "count", Name: "x"}},
+		Times: tb, Interval: 10e9, Fill: FillNone, Desc: true, GroupBy: []string{"h"}}
+	h1, h2 := map[string]string{"h": "1"}, map[string]string{"h": "2"}
+	cols := []string{"time", "min", "max", "count"}
+	// fill(none): an interval is reported when one of the calls has data in it; COUNT() of nothing: 0 or null
+	expectOK(t, d, q, `SELECT min("a"), max("b"), count("x") FROM "m" WHERE time >= 0 AND time < 40s GROUP BY time(10s), "h" fill(none) ORDER BY time DESC`, cols,
+		[]wantSeries{{h1, [][]any{{int64(30e9), 7.0, 40.0, nil}, {int64(20e9), nil, 30.0, int64(0)}, {int64(10e9), nil, 20.0, nil}, {int64(0), 1.0, 10.0, nil}}},
+			{h2, [][]any{{int64(10e9), nil, nil, int64(1)}}}})
+	// rows of one interval split in two, out of time order (what a wrong head selection in the join produces)
+	expectReject(t, d, q, cols, []wantSeries{{h1, [][]any{{int64(30e9), 7.0, 40.0, nil}, {int64(0), 1.0, nil, nil}, {int64(20e9), nil, 30.0, nil}, {int64(10e9), nil, 20.0, nil}, {int64(0), nil, 10.0, nil}}},
+		{h2, [][]any{{int64(10e9), nil, nil, int64(1)}}}}, "split rows")
+	expectReject(t, d, q, cols, []wantSeries{{h1, [][]any{{int64(30e9), 7.0, 40.0, nil}, {int64(20e9), nil, 30.0, nil}, {int64(10e9), nil, 20.0, nil}, {int64(0), 1.0, 10.0, nil}}},
+		{h2, [][]any{{int64(10e9), nil, nil, nil}}}}, "count of one point reported as null")
+	// fill(<number>): every call is filled on its own, also the one without points in the series
+	q.Fill, q.FillInt, q.Desc = FillValue, 9, false
+	expectOK(t, d, q, q.String(), cols,
+		[]wantSeries{{h1, [][]any{{int64(0), 1.0, 10.0, int64(9)}, {int64(10e9), 9.0, 20.0, int64(9)}, {int64(20e9), 9.0, 30.0, int64(9)}, {int64(30e9), 7.0, 40.0, int64(9)}}},
+			{h2, [][]any{{int64(0), 9.0, 9.0, int64(9)}, {int64(10e9), 9.0, 9.0, int64(1)}, {int64(20e9), 9.0, 9.0, int64(9)}, {int64(30e9), 9.0, 9.0, int64(9)}}}})
+	// fill(previous) per call
+	q.Fill = FillPrevious
+	expectOK(t, d, q, q.String(), cols,
+		[]wantSeries{{h1, [][]any{{int64(0), 1.0, 10.0, nil}, {int64(10e9), 1.0, 20.0, nil}, {int64(20e9), 1.0, 30.0, nil}, {int64(30e9), 7.0, 40.0, nil}}},
+			{h2, [][]any{{int64(0), nil, nil, nil}, {int64(10e9), nil, nil, int64(1)}, {int64(20e9), nil, nil, int64(1)}, {int64(30e9), nil, nil, int64(1)}}}})
+	// LIMIT/OFFSET count joined rows
+	q.Fill, q.Limit, q.RowOffset = FillNone, 2, 1
+	expectOK(t, d, q, q.String(), cols,
+		[]wantSeries{{h1, [][]any{{int64(10e9), nil, 20.0, nil}, {int64(20e9), nil, 30.0, nil}}}})
+	if r := mustEval(t, d, q); r.Misaligned != 2 || r.AbsentCalls != 3 {
+		t.Fatalf("statistics: misaligned %d absent %d", r.Misaligned, r.AbsentCalls)
+	}
+}
